@@ -2,11 +2,17 @@
    initConfiguration (what NewPeerConnection stores) and ICEServer.validate /
    ICEServer.urls (iceserver.go), in the code's check/assign order.
    A Certificate is (dynamic type of the private key, identity of the private
-   key, identity of the x509 certificate) and Certificate.Equals
-   (certificate.go) is modelled on those three: the identity of a certificate
-   is its x509 certificate together with its key, NOT the key alone -- two
-   certificates issued for one key (GenerateCertificate(sk) twice, a renewal)
-   are different certificates.  stun.ParseURI is abstracted to the class of
+   key, identity of the x509 certificate, the instant Expires() returns) and
+   Certificate.Equals (certificate.go) is modelled on the first three: the
+   identity of a certificate is its x509 certificate together with its key,
+   NOT the key alone -- two certificates issued for one key
+   (GenerateCertificate(sk) twice, a renewal) are different certificates.
+   Equals never looks at the expiry: x509Cert.Equal compares the DER bytes
+   (Raw) only, while Expires() reads the NotAfter FIELD of the
+   *x509.Certificate the caller handed to CertificateFromX509 -- the two are
+   independent labels here, as they are in Go.
+   The clock is an input: initConfiguration reads time.Now() once (`now`);
+   SetConfiguration never reads it.  stun.ParseURI is abstracted to the class of
    each URL.  No proofs here. *)
 From Coq Require Import List Bool String NArith ZArith.
 Import ListNotations.
@@ -34,7 +40,24 @@ Record cert := {
   c_ktype : keytype;
   c_key : Z;                (* identity of the private key (RSA: N; ECDSA: X, Y) *)
   c_x509 : Z;               (* identity of the x509 certificate (its raw DER bytes) *)
+  c_expires : Z;            (* Certificate.Expires(): x509Cert.NotAfter as an instant in
+                               nanoseconds since 0001-01-01 00:00:00 UTC, so that
+                               0 is the zero time.Time (also what a nil x509Cert gives) *)
 }.
+
+(* peerconnection.go initConfiguration:
+     !x509Cert.Expires().IsZero() && now.After(x509Cert.Expires()) *)
+Definition cert_expired (now : Z) (c : cert) : bool :=
+  negb (Z.eqb (c_expires c) 0) && Z.ltb (c_expires c) now.
+
+(* "for _, x509Cert := range configuration.Certificates { if expired { return
+   InvalidAccessError{ErrCertificateExpired} }; append }": the first expired
+   certificate ends NewPeerConnection *)
+Fixpoint check_expiry (now : Z) (l : list cert) : bool :=
+  match l with
+  | [] => true
+  | c :: more => if cert_expired now c then false else check_expiry now more
+  end.
 
 (* Certificate.Equals: switch on the receiver's key type; the argument's key
    must have the same type and the same value; then x509Cert.Equal *)
@@ -101,17 +124,24 @@ Definition default_config : config :=
   {| servers := []; policy := 0; bundle := 1; rtcpmux := 2; identity := ""; certs := [];
      pool := 0; semantics := 0; always_dc := false |}.
 
-(* identity the harness gives the certificate pion generates when none is configured *)
-Definition generated_cert : cert := {| c_ktype := KEcdsa; c_key := 100; c_x509 := 100 |}.
+(* identity the harness gives the certificate pion generates when none is
+   configured; GenerateCertificate: NotAfter = time.Now().AddDate(0, 1, -1),
+   27 to 30 days ahead -- 27 days here (the harness does not compare the
+   expiry of this certificate, it only checks that it lies in the future) *)
+Definition generated_validity : Z := 27 * 86400 * 1000000000.
+Definition generated_cert (now : Z) : cert :=
+  {| c_ktype := KEcdsa; c_key := 100; c_x509 := 100; c_expires := now + generated_validity |}.
 
-(* initConfiguration (certificate expiry is not modelled: the harness uses valid ones) *)
-Definition init_configuration (c : config) : result config :=
+(* initConfiguration; now = the time.Now() it reads before the certificate loop.
+   The expiry check stands before the pool-size and ICE-server checks. *)
+Definition init_configuration (now : Z) (c : config) : result config :=
   let d := default_config in
   let ident := if String.eqb (identity c) "" then identity d else identity c in
-  let cs := match certs c with [] => [generated_cert] | l => l end in
+  let cs := match certs c with [] => [generated_cert now] | l => l end in
   let b := if Z.eqb (bundle c) 0 then bundle d else bundle c in
   let r := if Z.eqb (rtcpmux c) 0 then rtcpmux d else rtcpmux c in
-  if negb (N.eqb (pool c) 0) && N.ltb 1 (pool c) then Err E_notsupported
+  if negb (check_expiry now (certs c)) then Err E_access
+  else if negb (N.eqb (pool c) 0) && N.ltb 1 (pool c) then Err E_notsupported
   else
     let pl := if N.eqb (pool c) 0 then pool d else pool c in
     match servers c with
@@ -271,3 +301,30 @@ Definition changes_immutable (has_local : bool) (cur new : config) : bool :=
   || changes_rtcpmux cur new || changes_pool has_local cur new.
 
 Definition servers_valid (l : list server) : bool := forallb server_valid l.
+
+(* what Certificate.Equals can see of a certificate *)
+Definition cert_id (c : cert) : keytype * Z * Z := (c_ktype c, c_key c, c_x509 c).
+
+(* the certificate block of SetConfiguration stores the ARGUMENT's list once
+   it compared equal: "pc.configuration.Certificates = configuration.Certificates" *)
+Definition adopt_certs (cur new : config) : config :=
+  match certs new with [] => cur | l => with_certs cur l end.
+
+(* position by position, a named certificate with the stored one's x509
+   identity also reports the stored one's expiry.  True of every pair of
+   certificates that came out of x509.ParseCertificate (NotAfter is part of the
+   DER bytes); false for CertificateFromX509(key, &copy) where copy is a parsed
+   certificate whose NotAfter field was overwritten. *)
+Definition expiry_agrees (cur new : list cert) : bool :=
+  forallb (fun p => implb (Z.eqb (c_x509 (fst p)) (c_x509 (snd p)))
+                          (Z.eqb (c_expires (fst p)) (c_expires (snd p))))
+          (combine cur new).
+
+(* the same for a whole history: expiry is a function of the x509 identity *)
+Definition expiry_from (f : Z -> Z) (l : list cert) : Prop :=
+  forall c, In c l -> c_expires c = f (c_x509 c).
+
+(* a configuration with the expiry of its certificates forgotten *)
+Definition forget_expiry (c : config) : config :=
+  with_certs c (map (fun x => {| c_ktype := c_ktype x; c_key := c_key x; c_x509 := c_x509 x;
+                                 c_expires := 0 |}) (certs c)).
